@@ -1,3 +1,75 @@
-From Coq Require Import List String.
-Example C03_placeholder : True. Proof. exact I. Qed.
-Print Assumptions C03_placeholder.
+(** C03 — parent, get_as and "/" navigate one consistent hierarchy.  Property theorems only. *)
+From Coq Require Import List String Ascii Bool Arith Permutation.
+From Spil Require Import Base.Str Base.Dict Base.Outcome Regex.Re Regex.MatchProofs Resolva.Template Resolva.Resolver
+  Conf.Conf Conf.WF Sid.Query Sid.Sid Sid.TypingSpec Sid.TypingProofs Sid.SidProofs Sid.QueryStringProofs Sid.QueryProofs.
+From SpilGen Require Hamlet.
+Import ListNotations.
+Local Open Scope string_scope.
+
+Theorem C03_get_as_partial : forall c Ld, load c = Some Ld -> wf_loadedb Ld = true ->
+  forall x i, naturally_typed Ld x -> mem_c "010" (s_string x) = false -> 1 <= i <= List.length (s_fields x) ->
+  exists y, get_as Ld x (nth (i - 1) (map fst (s_fields x)) "") = Ok y /\
+            s_fields y = firstn i (s_fields x) /\
+            s_string y = join "/" (firstn i (split_c "/" (s_string x))) /\
+            sid_bool y = true.
+Proof. exact get_as_prefix. Qed.
+Print Assumptions C03_get_as_partial.
+
+Theorem C03_parent : forall c Ld, load c = Some Ld -> wf_loadedb Ld = true ->
+  forall x, naturally_typed Ld x ->
+  (1 < List.length (s_fields x) ->
+     parent Ld x = get_as Ld x (nth (List.length (s_fields x) - 2) (map fst (s_fields x)) "")) /\
+  (List.length (s_fields x) = 1 -> mem_c "?" (s_string x) = false -> parent Ld x = Ok x).
+Proof. exact parent_spec. Qed.
+Print Assumptions C03_parent.
+
+(* parent / last-value gives back the Sid *)
+Theorem C03_div_partial : forall c Ld, load c = Some Ld -> wf_loadedb Ld = true ->
+  forall x y, naturally_typed Ld x -> 1 < List.length (s_fields x) ->
+  mem_c "?" (s_string x) = false -> mem_c ":" (s_string x) = false -> mem_c "010" (s_string x) = false ->
+  parent Ld x = Ok y -> sid_div Ld y (last (map snd (s_fields x)) "") = Ok x.
+Proof. exact div_parent. Qed.
+Print Assumptions C03_div_partial.
+
+(* keytype / basetype / len *)
+Theorem C03_coherence : forall c Ld, load c = Some Ld -> wf_loadedb Ld = true ->
+  forall x, naturally_typed Ld x ->
+  exists tp, find_tpl (l_sid Ld) (s_type x) = Some tp /\
+    sid_len x = List.length (item_names (tp_items tp)) /\
+    sid_len x = List.length (split_c "/" (s_string x)) /\
+    1 <= sid_len x /\
+    keytype x = Some (last (map fst (s_fields x)) "") /\
+    keytype x = Some (last (item_names (tp_items tp)) "") /\
+    basetype Ld x = Some (hd "" (split_s (c_sep (l_conf Ld)) (s_type x))).
+Proof. exact coherence. Qed.
+Print Assumptions C03_coherence.
+
+(* on an untyped Sid the navigations return the empty Sid instead of failing *)
+Theorem C03_untyped : forall c Ld s k, load c = Some Ld -> wf_loadedb Ld = true ->
+  let x := mkSid s "" [] in
+  parent Ld x = Ok empty_sid /\ get_as Ld x k = Ok empty_sid /\ keytype x = None /\ basetype Ld x = None /\ sid_len x = 0.
+Proof. exact untyped_nav. Qed.
+Print Assumptions C03_untyped.
+
+(* the forced-type case is NOT covered by C03_div: parent / value re-types the string naturally (recorded, D19) *)
+Example C03_div_forced_refuted :
+  match sid_factory Hamlet.the_loaded (FromString "shot__cache_node:hamlet/s/sq001/sh0010/anim/v001/w/abc") with
+  | Ok x => match parent Hamlet.the_loaded x with
+            | Ok y => match sid_div Hamlet.the_loaded y "abc" with
+                      | Ok z => sid_bool x && negb (String.eqb (s_type z) (s_type x))
+                      | Raise _ => false
+                      end
+            | Raise _ => false
+            end
+  | Raise _ => false
+  end = true.
+Proof. vm_compute. reflexivity. Qed.
+Print Assumptions C03_div_forced_refuted.
+
+Example C03_instance :
+  match get_as Hamlet.the_loaded (mkSid "hamlet/a/char/x" "asset__asset" [("project","hamlet");("type","a");("assettype","char");("asset","x")]) "type" with
+  | Ok y => String.eqb (s_string y) "hamlet/a" && String.eqb (s_type y) "asset"
+  | Raise _ => false
+  end = true.
+Proof. vm_compute. reflexivity. Qed.
+Print Assumptions C03_instance.
